@@ -9,12 +9,25 @@ from facts import VERIF, REPO, CACHE
 
 def run():
     """returns (passed, failed, [(name, kind, ok)], raw tail)"""
-    wdir = os.path.join(VERIF, "witness")
-    shutil.copyfile(os.path.join(REPO, "Cargo.lock"), os.path.join(wdir, "Cargo.lock"))
+    import fcntl
+    os.makedirs(CACHE, exist_ok=True)
+    lock = open(os.path.join(CACHE, "lock_witness"), "w")
+    fcntl.flock(lock, fcntl.LOCK_EX)
+    # a private copy of the witness crate whose path dependency names the tree under analysis
+    wdir = os.path.join(CACHE, "witness_src")
+    shutil.rmtree(wdir, ignore_errors=True)
+    os.makedirs(os.path.join(wdir, "src"))
+    man = open(os.path.join(VERIF, "witness", "Cargo.toml")).read()
+    if 'path = "/repo"' not in man:
+        raise RuntimeError("witness/Cargo.toml: path dependency on /repo not found")
+    open(os.path.join(wdir, "Cargo.toml"), "w").write(man.replace('path = "/repo"', 'path = "%s"' % REPO))
+    shutil.copyfile(os.path.join(VERIF, "witness", "src", "lib.rs"), os.path.join(wdir, "src", "lib.rs"))
+    if os.path.exists(os.path.join(REPO, "Cargo.lock")):
+        shutil.copyfile(os.path.join(REPO, "Cargo.lock"), os.path.join(wdir, "Cargo.lock"))
+    elif os.path.exists("/repo/Cargo.lock"):
+        shutil.copyfile("/repo/Cargo.lock", os.path.join(wdir, "Cargo.lock"))
     env = dict(os.environ, CARGO_NET_OFFLINE="true", CARGO_TARGET_DIR=os.path.join(CACHE, "witness_target"))
     cmd = ["cargo", "+nightly", "test", "--doc", "--offline"]
-    if REPO != "/repo":
-        cmd += ["--config", "patch.crates-io.chrono.path='%s'" % REPO]
     r = subprocess.run(cmd, cwd=wdir, env=env, stdout=subprocess.PIPE, stderr=subprocess.STDOUT, text=True)
     tests = []
     for m in re.finditer(r"^test src/lib.rs - (\S+) \(line (\d+)\) - (compile fail|compile) \.\.\. (\w+)", r.stdout, re.M):
